@@ -1,10 +1,20 @@
-import BeyondVerif.Lemmas.HeapCopy
+import BeyondVerif.Lemmas.HeapSep
 /-!
 # C15 — state vectors have value semantics and change atomically
 
 Theorems about the heap model `Model/Heap.lean` (tied to /repo by the exact correspondence run and by
 the name tables regenerated into `Generated/FormTables.lean` on every run).
 -/
+namespace BeyondVerif.C15Ex
+open BeyondVerif.Heap
+/-- a state vector (cell 6) with one maneuver (cell 1, in the list 2) and a nested metadata container -/
+def h0 : Heap :=
+  [ .buf (.init 0), .man 0, .list [.addr 1], .list [.tok 1], .dict [("k", .addr 3)],
+    .dict [("maneuvers", .addr 2), ("nested", .addr 4), ("date", .tok 100), ("form", .form "cartesian"),
+           ("frame", .frame (.reg "EME2000" 0))],
+    .sv false 0 5 ]
+end BeyondVerif.C15Ex
+
 namespace BeyondVerif.C15
 open BeyondVerif.Heap BeyondVerif.Generated FormTables
 
@@ -13,19 +23,17 @@ open BeyondVerif.Heap BeyondVerif.Generated FormTables
 /-- every form has six pairwise distinct element names (so `param_names.index` is unambiguous) -/
 theorem names_six_distinct : ∀ p ∈ paramNames, p.2.length = 6 ∧ p.2.Nodup := by decide +kernel
 
-/-- the forms in which the element name itself is not usable: found by the oracle, see Witness/C15.lean -/
-def nameExceptions : List (String × Nat) := [("cylindrical", 1), ("cylindrical", 4)]
-
-/- Full statement (clause "element access by name … agrees with the current form's ordering"):
-     ∀ p ∈ paramNames, ∀ i < 6, access p.1 (p.2.getD i "") = .slot i
-   It is FALSE of the current code for cylindrical `theta` / `theta_dot` (Witness.C15.cylindrical_theta_refused):
-   `Form.alt` rewrites them to `θ` / `θ_dot`, which cylindrical does not have. Proved for every other (form, slot). -/
-/-- the i-th element name of a form addresses slot i -/
-theorem access_name_index_partial :
-    ∀ p ∈ paramNames, ∀ i, i < 6 → (p.1, i) ∉ nameExceptions → access p.1 (p.2.getD i "") = .slot i := by
+/- History: until /repo commit 0cea58e this held only outside cylindrical slots 1 and 4 (`access_name_index_partial`,
+   counter-witness `cylindrical_theta_refused`): `Form.alt` rewrote `theta`/`theta_dot` to names the cylindrical form did not have. -/
+/-- clause "element access by name … agrees with the current form's ordering": in every form, the i-th element
+name addresses slot i -/
+theorem access_name_index :
+    ∀ p ∈ paramNames, ∀ i, i < 6 → access p.1 (p.2.getD i "") = .slot i := by
   decide +kernel
 
 example : access "keplerian" "Ω" = .slot 3 := by decide +kernel
+example : access "cylindrical" "theta" = .slot 1 ∧ access "cylindrical" "θ" = .slot 1 ∧ access "cylindrical" "theta_dot" = .slot 4 := by
+  decide +kernel
 
 /-- an alias addresses the slot of the element it stands for, in every form that has that element -/
 theorem access_alias_index :
@@ -67,9 +75,7 @@ theorem setForm_error_atomic (h h' : Heap) (a : Nat) (name : String) (e : Err)
   · unfold setFormTo at hr
     split at hr
     · simp at hr; exact hr.1.symm
-    · split at hr
-      · simp at hr; exact hr.1.symm
-      · simp at hr
+    · simp at hr
 
 /-- an unknown frame name: nothing is touched -/
 theorem setFrame_unknown_atomic (h : Heap) (a : Nat) (name : String) (hn : resolveFrame name = none) :
@@ -78,10 +84,9 @@ theorem setFrame_unknown_atomic (h : Heap) (a : Nat) (name : String) (hn : resol
 
 example : resolveFrame "NoSuchFrame" = none := by decide +kernel
 
-/-- a failing transformation (Hill frame involved, or an unpickled object): the only cell that may be
-rewritten is the coordinate buffer, and its new content denotes the same physical state (`phys` erases
-form conversions: the code goes form → cartesian → form); form, frame, metadata, covariance cells are
-not written at all -/
+/-- a failing transformation (Hill frame involved): the only cell that may be rewritten is the coordinate
+buffer, and its new content denotes the same physical state (`phys` erases form conversions: the code goes
+form → cartesian → form); form, frame, metadata, covariance cells are not written at all -/
 theorem setFrameBasic_error_atomic (h h' : Heap) (a : Nat) (fr : Fr) (e : Err) (s : SV)
     (hs : getSV h a = some s) (hr : setFrameBasic h a fr = (h', .error e)) :
     h' = h ∨ ∃ v', h' = write h s.buf (.buf v') ∧ phys v' = phys s.val := by
@@ -89,28 +94,40 @@ theorem setFrameBasic_error_atomic (h h' : Heap) (a : Nat) (fr : Fr) (e : Err) (
   rw [hs] at hr
   simp only at hr
   split at hr
-  · left; simp at hr; exact hr.1.symm
+  · simp at hr
+  · split at hr
+    · simp at hr
+    · right; simp at hr; exact ⟨_, hr.1.symm, by simp [phys_mkConv]⟩
+    · right; simp at hr; exact ⟨_, hr.1.symm, by simp [phys_mkConv]⟩
+    · left; simp at hr; exact hr.1.symm
+
+example : setFrameBasic [.buf (.init 0), .dict [("form", .form "keplerian"), ("frame", .frame (.reg "EME2000" 0))], .sv false 0 1] 2 (.hill 0)
+    = ([.buf (.conv "cartesian" "keplerian" (.conv "keplerian" "cartesian" (.init 0))),
+        .dict [("form", .form "keplerian"), ("frame", .frame (.reg "EME2000" 0))], .sv false 0 1], .error .value) := by
+  decide +kernel
+
+/-- a failing covariance frame change writes nothing -/
+theorem covSetFrame_error_atomic (h h' : Heap) (c : Nat) (fr : Fr) (e : Err)
+    (hr : covSetFrame h c fr = (h', .error e)) : h' = h := by
+  unfold covSetFrame at hr
+  split at hr
   · split at hr
     · simp at hr
     · split at hr
-      · simp at hr
-      · right; simp at hr; exact ⟨_, hr.1.symm, by simp [phys_mkConv]⟩
-      · right; simp at hr; exact ⟨_, hr.1.symm, by simp [phys_mkConv]⟩
-      · left; simp at hr; exact hr.1.symm
-
-example : setFrameBasic [.buf (.init 0), .dict [("form", .form "keplerian"), ("frame", .frame (.reg "EME2000"))], .sv false false 0 1] 2 .hill
-    = ([.buf (.conv "cartesian" "keplerian" (.conv "keplerian" "cartesian" (.init 0))),
-        .dict [("form", .form "keplerian"), ("frame", .frame (.reg "EME2000"))], .sv false false 0 1], .error .value) := by
-  decide +kernel
+      · simp at hr; exact hr.1.symm
+      · split at hr
+        · simp at hr; exact hr.1.symm
+        · simp at hr
+  · simp at hr; exact hr.1.symm
 
 /-- where a failing `sv.frame = name` can come from: an unknown name (nothing touched), the state-vector
 part (see `setFrameBasic_error_atomic`), or — the state vector having been changed successfully — the
-covariance that was to follow it -/
+covariance that was to follow it (which is then left exactly as it was, `covSetFrame_error_atomic`) -/
 theorem setFrame_error_cases (h h' : Heap) (a : Nat) (name : String) (e : Err) (s : SV)
     (hs : getSV h a = some s) (hr : setFrame h a name = (h', .error e)) :
     (h' = h) ∨
     (∃ fr, resolveFrame name = some fr ∧ setFrameBasic h a fr = (h', .error e)) ∨
-    (∃ fr h1 c, resolveFrame name = some fr ∧ setFrameBasic h a fr = (h1, .ok ()) ∧ lookup "cov" s.items = some (.addr c)) := by
+    (∃ fr c, resolveFrame name = some fr ∧ setFrameBasic h a fr = (h', .ok ()) ∧ lookup "cov" s.items = some (.addr c)) := by
   unfold setFrame at hr
   split at hr
   · left; simp at hr; exact hr.1.symm
@@ -126,125 +143,14 @@ theorem setFrame_error_cases (h h' : Heap) (a : Nat) (name : String) (e : Err) (
       right; right
       split at hr
       · rename_i c hc
-        exact ⟨fr, h1, c, hfr, hb, hc⟩
+        refine ⟨fr, c, hfr, ?_, hc⟩
+        split at hr
+        · split at hr
+          · have := covSetFrame_error_atomic _ _ _ _ _ hr
+            rw [hb, this]
+          · simp at hr
+        · simp at hr; rw [hb, hr.1]
       · simp at hr
-
-/-! ## StateVector ↔ Orbit -/
-
-/-- `as_orbit` allocates three new cells and writes nothing: the receiver and everything reachable from it is unchanged -/
-theorem asOrbit_receiver_unchanged (h : Heap) (a p : Nat) : Pres h (asOrbit h a p).1 := by
-  unfold asOrbit
-  split
-  · exact Pres.refl h
-  · split
-    · exact Pres.refl h
-    · exact ((alloc_pres h _).alloc _).alloc _
-
-theorem asSV_receiver_unchanged (h : Heap) (a : Nat) : Pres h (asSV h a).1 := by
-  unfold asSV
-  split
-  · exact Pres.refl h
-  · split
-    · exact Pres.refl h
-    · split
-      · exact Pres.refl h
-      · exact ((alloc_pres h _).alloc _).alloc _
-
-
-/-- reading back a freshly allocated StateVector -/
-theorem getSV_alloc3 (h : Heap) (v : Val) (items : Items) (o : Bool) (f : String) (fr : Fr)
-    (hf : formOf items = some f) (hfr : frameOf items = some fr) :
-    getSV (h ++ [.buf v] ++ [.dict items] ++ [.sv o false h.length (h.length + 1)]) (h.length + 2)
-      = some ⟨o, false, h.length, h.length + 1, v, items, f, fr⟩ := by
-  unfold getSV
-  simp [hf, hfr]
-
-/-- values and metadata are preserved by StateVector → Orbit → StateVector: the object that comes back has
-the same coordinates and exactly the same `_data` entries (same keys, same order, same values) -/
-theorem as_orbit_as_statevector_id (h : Heap) (a p : Nat) (s : SV) (hs : getSV h a = some s)
-    (hown : s.owned = false) (hp : lookup "propagator" s.items = none) :
-    ∃ h1 n h2 m s2, asOrbit h a p = (h1, .ok n) ∧ asSV h1 n = (h2, .ok m) ∧ getSV h2 m = some s2 ∧
-      s2.val = s.val ∧ s2.items = s.items ∧ s2.form = s.form ∧ s2.frame = s.frame ∧ s2.orbit = false ∧
-      s2.buf ≠ s.buf ∧ s2.data ≠ s.data ∧ Pres h h2 := by
-  have hf : formOf s.items = some s.form ∧ frameOf s.items = some s.frame := by
-    unfold getSV at hs
-    split at hs
-    · split at hs
-      · split at hs
-        · rename_i f fr hf hfr; simp at hs; subst hs; exact ⟨hf, hfr⟩
-        · simp at hs
-      · simp at hs
-    · simp at hs
-  have hbuf : s.buf < h.length ∧ s.data < h.length := by
-    unfold getSV at hs
-    split at hs
-    · rename_i o own b d hc
-      split at hs
-      · rename_i v items hb hd
-        split at hs
-        · simp at hs; subst hs
-          exact ⟨(List.getElem?_eq_some_iff.mp hb).1, (List.getElem?_eq_some_iff.mp hd).1⟩
-        · simp at hs
-      · simp at hs
-    · simp at hs
-  have hf1 : formOf (insert "propagator" (.addr p) s.items) = some s.form := by
-    unfold formOf; rw [lookup_insert_ne _ _ _ _ (by decide)]; exact hf.1
-  have hfr1 : frameOf (insert "propagator" (.addr p) s.items) = some s.frame := by
-    unfold frameOf; rw [lookup_insert_ne _ _ _ _ (by decide)]; exact hf.2
-  have g1 := getSV_alloc3 h s.val (insert "propagator" (.addr p) s.items) true s.form s.frame hf1 hfr1
-  have e1 : asOrbit h a p = (h ++ [.buf s.val] ++ [.dict (insert "propagator" (.addr p) s.items)] ++ [.sv true false h.length (h.length + 1)], .ok (h.length + 2)) := by
-    unfold asOrbit; rw [hs]; simp [hown, alloc]
-  let h1 := h ++ [.buf s.val] ++ [.dict (insert "propagator" (.addr p) s.items)] ++ [.sv true false h.length (h.length + 1)]
-  have hl1 : h1.length = h.length + 3 := by simp [h1]
-  have hitems : erase "propagator" (insert "propagator" (.addr p) s.items) = s.items := erase_insert _ _ _ hp
-  have e2 : asSV h1 (h.length + 2) = (h1 ++ [.buf s.val] ++ [.dict s.items] ++ [.sv false false h1.length (h1.length + 1)], .ok (h1.length + 2)) := by
-    unfold asSV; rw [g1]; simp [alloc, hitems]
-  have g2 := getSV_alloc3 h1 s.val s.items false s.form s.frame hf.1 hf.2
-  refine ⟨h1, h.length + 2, _, h1.length + 2, _, e1, e2, g2, rfl, rfl, rfl, rfl, rfl, ?_, ?_, ?_⟩
-  · simp only; omega
-  · simp only; omega
-  · have q1 : Pres h h1 := ((alloc_pres h _).alloc _).alloc _
-    have q2 : Pres h1 (h1 ++ [.buf s.val] ++ [.dict s.items] ++ [.sv false false h1.length (h1.length + 1)]) :=
-      ((alloc_pres h1 _).alloc _).alloc _
-    exact q1.trans q2
-
-/-- `as_orbit` hands every metadata value over *as it is*: the new Orbit's `_data` holds, under every key but
-`propagator`, the very same reference as the receiver's — metadata is preserved, and every mutable value
-(covariance, maneuver list, containers) is thereby shared (see Witness/C15.lean for the consequence) -/
-theorem asOrbit_same_references (h : Heap) (a p : Nat) (s : SV) (hs : getSV h a = some s) (hown : s.owned = false) :
-    ∃ h1 n s1, asOrbit h a p = (h1, .ok n) ∧ getSV h1 n = some s1 ∧ s1.val = s.val ∧ s1.buf ≠ s.buf ∧ s1.data ≠ s.data ∧
-      ∀ k, k ≠ "propagator" → lookup k s1.items = lookup k s.items := by
-  have hf : formOf s.items = some s.form ∧ frameOf s.items = some s.frame := by
-    unfold getSV at hs
-    split at hs
-    · split at hs
-      · split at hs
-        · rename_i f fr hf hfr; simp at hs; subst hs; exact ⟨hf, hfr⟩
-        · simp at hs
-      · simp at hs
-    · simp at hs
-  have hbuf : s.buf < h.length ∧ s.data < h.length := by
-    unfold getSV at hs
-    split at hs
-    · rename_i o own b d hc
-      split at hs
-      · rename_i v items hb hd
-        split at hs
-        · simp at hs; subst hs
-          exact ⟨(List.getElem?_eq_some_iff.mp hb).1, (List.getElem?_eq_some_iff.mp hd).1⟩
-        · simp at hs
-      · simp at hs
-    · simp at hs
-  have hf1 : formOf (insert "propagator" (.addr p) s.items) = some s.form := by
-    unfold formOf; rw [lookup_insert_ne _ _ _ _ (by decide)]; exact hf.1
-  have hfr1 : frameOf (insert "propagator" (.addr p) s.items) = some s.frame := by
-    unfold frameOf; rw [lookup_insert_ne _ _ _ _ (by decide)]; exact hf.2
-  have g1 := getSV_alloc3 h s.val (insert "propagator" (.addr p) s.items) true s.form s.frame hf1 hfr1
-  have e1 : asOrbit h a p = (h ++ [.buf s.val] ++ [.dict (insert "propagator" (.addr p) s.items)] ++ [.sv true false h.length (h.length + 1)], .ok (h.length + 2)) := by
-    unfold asOrbit; rw [hs]; simp [hown, alloc]
-  refine ⟨_, _, _, e1, g1, rfl, ?_, ?_, fun k hk => lookup_insert_ne _ _ _ _ hk⟩
-  · simp only; omega
-  · simp only; omega
 
 /-! ## copies -/
 
@@ -252,23 +158,32 @@ theorem asOrbit_same_references (h : Heap) (a p : Nat) (s : SV) (hs : getSV h a 
 theorem copy_receiver_unchanged (h : Heap) (a : Nat) : Pres h (copySV h a).1 :=
   copySVWith_pres (copyRef_ok _) h a
 
-/- Full statement (clause "a copy shares no mutable data with the original"):
-     no mutable cell reachable from the copy is reachable from the original.
-   It is FALSE of the current code (Witness/C15.lean: maneuver objects and nested containers stay shared).
-   Proved at the depth the code copies: -/
 /-- after `c = sv.copy()`: the object, its coordinate buffer and its `_data` dict are new cells; the values are
-those of the receiver; and every reference stored in the new `_data` is a new cell (list, dict, ndarray,
-covariance, propagator have been copied) — the only old addresses that survive at the first level are
-maneuver objects -/
+those of the receiver; and every reference stored in the new `_data` is a new cell — the only old addresses
+that survive at the first level are maneuver objects (for the full depth see `copy_separate`) -/
 theorem copy_separate_depth1 (h h1 : Heap) (a n : Nat) (s' : SV)
     (hr : copySV h a = (h1, .ok n)) (hg : getSV h1 n = some s') :
     h.length ≤ n ∧ h.length ≤ s'.buf ∧ h.length ≤ s'.data ∧ s'.buf ≠ s'.data ∧
     (∃ s, getSV h a = some s ∧ s'.val = s.val ∧ s'.orbit = s.orbit) ∧
     ∀ k x, (k, Ref.addr x) ∈ s'.items → h.length ≤ x ∨ ∃ t, h[x]? = some (.man t) := by
-  obtain ⟨hb, hd, hn, hne, s, items', h0, hs, hc, hv, hi, ho, _⟩ := copySVWith_getSV (copyRef_ok _) h h1 a n s' hr hg
+  obtain ⟨hb, hd, hn, hne, s, items', h0, hs, hc, hv, hi, ho⟩ := copySVWith_getSV (copyRef_ok _) h h1 a n s' hr hg
   refine ⟨hn, hb, hd, hne, ⟨s, hs, hv, ho⟩, ?_⟩
   rw [hi]
   exact copyItems_fresh (copyRef_ok _) h s.items items' h0 hc
+
+/-- the form setter applied to the object a copy returned writes only new cells -/
+theorem setForm_on_copy_pres (h h1 : Heap) (a n : Nat) (name : String) (he : copySV h a = (h1, .ok n)) :
+    Pres h (setForm h1 n name).1 := by
+  have p : Pres h h1 := by have := copy_receiver_unchanged h a; rw [he] at this; exact this
+  unfold setForm
+  split
+  · exact p
+  · unfold setFormTo
+    split
+    · exact p
+    · rename_i s' hs'
+      obtain ⟨hb, hd, _⟩ := copySVWith_getSV (copyRef_ok _) h h1 a n s' he hs'
+      exact (p.wr hb _).wr hd _
 
 /-- `copy(form=…)`: the conversion runs on the new object and writes only its (new) buffer and dict — the
 receiver is unchanged whether the conversion succeeds or fails -/
@@ -278,21 +193,473 @@ theorem copyForm_receiver_unchanged (h : Heap) (a : Nat) (name : String) : Pres 
   split
   · rename_i h1 e he; rw [he] at p; exact p
   · rename_i h1 n he
-    rw [he] at p
-    have q : Pres h (setForm h1 n name).1 := by
-      unfold setForm
-      split
-      · exact p
-      · unfold setFormTo
-        split
-        · exact p
-        · rename_i s' hs'
-          split
-          · exact p
-          · obtain ⟨hb, hd, _⟩ := copySVWith_getSV (copyRef_ok _) h h1 a n s' he hs'
-            exact (p.wr hb _).wr hd _
+    have q := setForm_on_copy_pres h h1 a n name he
     split
     · rename_i h2 e he2; rw [he2] at q; exact q
     · rename_i h2 he2; rw [he2] at q; exact q
+
+theorem lookup_mem_items (k : String) (r : Ref) (items : Items) (hl : lookup k items = some r) : (k, r) ∈ items := by
+  induction items with
+  | nil => simp [lookup] at hl
+  | cons kv rest ih =>
+    obtain ⟨k', v⟩ := kv
+    by_cases hk : k' = k
+    · subst hk; simp [lookup] at hl; subst hl; exact List.mem_cons_self
+    · simp [lookup, hk] at hl; exact List.mem_cons_of_mem _ (ih hl)
+
+/- History: listed as an open obligation until /repo commit d229088 (the covariance setter no longer re-frames its
+   private state copy) made the covariance part a single write to the (new) covariance cell. -/
+/-- `copy(frame=…)`: the frame change runs on the new object; it writes its (new) buffer and dict and, when the
+covariance follows, the (new) covariance cell — the receiver and its covariance are unchanged whether the
+change succeeds or fails -/
+theorem copyFrame_receiver_unchanged (h : Heap) (a : Nat) (name : String) : Pres h (copyFrame h a name).1 := by
+  unfold copyFrame
+  have p := copy_receiver_unchanged h a
+  split
+  · rename_i h1 e he; rw [he] at p; exact p
+  · rename_i h1 n he
+    rw [he] at p
+    have q : Pres h (setFrame h1 n name).1 := by
+      unfold setFrame
+      split
+      · exact p
+      · rename_i fr hfr
+        split
+        · exact p
+        · rename_i s' hs'
+          obtain ⟨hb, hd, _, _, s, items', h0, hs, hc, _, hi, _⟩ := copySVWith_getSV (copyRef_ok _) h h1 a n s' he hs'
+          have pb : Pres h (setFrameBasic h1 n fr).1 := by
+            unfold setFrameBasic
+            rw [hs']
+            simp only
+            split
+            · exact p
+            · split
+              · exact (p.wr hb _).wr hd _
+              · exact p.wr hb _
+              · exact p.wr hb _
+              · exact p
+          split
+          · rename_i h2 e hb2; rw [hb2] at pb; exact pb
+          · rename_i h2 hb2
+            rw [hb2] at pb
+            split
+            · rename_i c hcov
+              have hfresh := copyItems_fresh (copyRef_ok _) h s.items items' h0 hc "cov" c (by rw [← hi]; exact lookup_mem_items _ _ _ hcov)
+              split
+              · rename_i cv cfr orb ofr hcell
+                split
+                · -- the covariance follows: one write, at `c`
+                  unfold covSetFrame
+                  rw [hcell]
+                  simp only
+                  split
+                  · exact pb
+                  · split
+                    · exact pb
+                    · split
+                      · exact pb
+                      · rcases hfresh with hnew | ⟨t, ht⟩
+                        · exact pb.wr hnew _
+                        · -- an old address would hold a maneuver object, not a covariance
+                          exfalso
+                          have hlt : c < h.length := (List.getElem?_eq_some_iff.mp ht).1
+                          have := pb.2 c hlt
+                          rw [hcell, ht] at this
+                          simp at this
+                · exact pb
+              · exact pb
+            · exact pb
+    split
+    · rename_i h2 e he2; rw [he2] at q; exact q
+    · rename_i h2 he2; rw [he2] at q; exact q
+
+/-! ## StateVector ↔ Orbit -/
+
+/-- `as_orbit` writes no pre-existing cell: the receiver and everything reachable from it is unchanged -/
+theorem asOrbit_receiver_unchanged (h : Heap) (a p : Nat) : Pres h (asOrbit h a p).1 := by
+  unfold asOrbit
+  split
+  · exact Pres.refl h
+  · have q := copy_receiver_unchanged h a
+    split
+    · rename_i h1 e he; rw [he] at q; exact q
+    · rename_i h1 c he
+      rw [he] at q
+      split
+      · exact q
+      · exact ((q.alloc _).alloc _).alloc _
+
+theorem asSV_receiver_unchanged (h : Heap) (a : Nat) : Pres h (asSV h a).1 := by
+  unfold asSV
+  split
+  · exact Pres.refl h
+  · split
+    · exact Pres.refl h
+    · have q := copy_receiver_unchanged h a
+      split
+      · rename_i h1 e he; rw [he] at q; exact q
+      · rename_i h1 c he
+        rw [he] at q
+        split
+        · exact q
+        · exact ((q.alloc _).alloc _).alloc _
+
+/-! ## pickle round trip -/
+
+/-- pickling writes nothing -/
+theorem pickle_receiver_unchanged (h : Heap) (a : Nat) : Pres h (pickle h a).1 := by
+  have inv0 : DeepInv (fun x => h.length ≤ x) h { h := h } := ⟨Pres.refl h, ClosedP.refl _ h, by simp⟩
+  have hd := deepRef_ok (P := fun x => h.length ≤ x) (h0 := h) (fun _ hx => hx) deepFuel { h := h } (.addr a) inv0
+  unfold pickle
+  split
+  · rename_i st r he
+    rw [he] at hd
+    split
+    · exact hd.1.pres
+    · exact hd.1.pres
+  · rename_i st he; rw [he] at hd; exact hd.1.pres
+
+/- History: until /repo commits 27f7ad7 / 2927581 the unpickled object was unusable (`self.base is None`) and its
+   covariance had lost `_data`; the model then carried `owned` / `ok` flags and the witnesses
+   `pickle_gives_unusable_object`, `pickle_then_copy_raises`. -/
+/-- the unpickled object shares *nothing* with the original: it is a new cell and every address stored in any
+cell created by the round trip is itself new (so nothing reachable from it existed before) -/
+theorem pickle_separate (h h1 : Heap) (a n : Nat) (hr : pickle h a = (h1, .ok n)) :
+    h.length ≤ n ∧ ClosedP (fun x => h.length ≤ x) h h1 := by
+  have inv0 : DeepInv (fun x => h.length ≤ x) h { h := h } := ⟨Pres.refl h, ClosedP.refl _ h, by simp⟩
+  have hd := deepRef_ok (P := fun x => h.length ≤ x) (h0 := h) (fun _ hx => hx) deepFuel { h := h } (.addr a) inv0
+  unfold pickle at hr
+  split at hr
+  · rename_i st r he
+    rw [he] at hd
+    split at hr
+    · rename_i m
+      simp at hr
+      rw [← hr.1, ← hr.2]
+      exact ⟨hd.2 m rfl, hd.1.closed⟩
+    · simp at hr
+  · simp at hr
+
+
+/-! ## full-depth separation -/
+
+/-- `b` is reachable from `a` by following stored addresses -/
+inductive Reach (h : Heap) : Nat → Nat → Prop
+  | refl (a : Nat) : Reach h a a
+  | step {a b x : Nat} {c : Cell} : Reach h a b → h[b]? = some c → x ∈ refsOf c → Reach h a x
+
+/- History: until /repo commit 27f7ad7 only `copy_separate_depth1` held (nested metadata containers stayed shared,
+   counter-witness `copy_shares_maneuver_objects_and_nested_containers`); the maneuver objects are still shared (open
+   finding, deliberately), which is why they appear as the one exception below. -/
+/-- clause "a copy shares no mutable data with the original", at full depth: in a well-formed heap (no dangling
+address; every `maneuvers` entry a list of maneuver objects), after `c = sv.copy()` the old heap is intact, `c`
+is a new cell, and every address stored in *any* cell the copy created is itself new or is a maneuver object -/
+theorem copy_separate (h h1 : Heap) (a n : Nat) (wf : WfM h) (hr : copySV h a = (h1, .ok n)) :
+    Sep h h1 ∧ h.length ≤ n := by
+  have ha : a < h.length := by
+    unfold copySV copySVWith at hr
+    split at hr
+    · simp at hr
+    · rename_i s hs
+      exact (List.getElem?_eq_some_iff.mp (getSV_cells h a s hs).1).1
+  have hs := copySVWith_sep wf (copyRef_sep wf copyFuel) h (Sep.refl h) a ha
+  unfold copySV at hr
+  rw [hr] at hs
+  obtain ⟨_, _, _, _, _, hl, hn, _⟩ := copySVWith_spec (copyRef_ok copyFuel) h h1 a n hr
+  exact ⟨hs, by omega⟩
+
+/-- everything reachable from a new cell of a separated heap is new or a maneuver object -/
+theorem reach_good {h0 h1 : Heap} (sep : Sep h0 h1) {n x : Nat} (hn : h0.length ≤ n) (hr : Reach h1 n x) : Good h0 x := by
+  induction hr with
+  | refl => exact Good.new hn
+  | step hab hc hx ih =>
+    rename_i b x c
+    rcases ih with hnew | ⟨t, ht⟩
+    · exact sep.closed b c hnew hc x hx
+    · have hlt : b < h0.length := (List.getElem?_eq_some_iff.mp ht).1
+      rw [sep.pres.2 b hlt, ht] at hc
+      simp at hc; subst hc
+      simp [refsOf] at hx
+
+/-- everything reachable from an old cell is old -/
+theorem reach_old {h0 h1 : Heap} (wf : WfM h0) (p : Pres h0 h1) {a x : Nat} (ha : a < h0.length) (hr : Reach h1 a x) :
+    x < h0.length := by
+  induction hr with
+  | refl => exact ha
+  | step hab hc hx ih =>
+    rename_i b x c
+    rw [p.2 b ih] at hc
+    exact wf.closed b c hc x hx
+
+/-- the clause in terms of reachability: after `c = sv.copy()`, a cell reachable both from the copy and from the
+receiver is a maneuver object — nothing else (no buffer, dict, list, array, covariance, propagator, private
+state) is shared, at any depth -/
+theorem copy_shares_only_maneuver_objects (h h1 : Heap) (a n x : Nat) (wf : WfM h) (hr : copySV h a = (h1, .ok n))
+    (ha : a < h.length) (hx1 : Reach h1 n x) (hx2 : Reach h1 a x) : ∃ t, h[x]? = some (.man t) := by
+  obtain ⟨sep, hn⟩ := copy_separate h h1 a n wf hr
+  have hold := reach_old wf sep.pres ha hx2
+  rcases reach_good sep hn hx1 with hnew | hman
+  · omega
+  · exact hman
+
+/-- the hypotheses of `copy_separate` are satisfiable: the example heap is well-formed and its copy succeeds -/
+theorem example_heap_wf : WfM C15Ex.h0 := by
+  constructor
+  · intro a c hc x hx
+    have ha : a < 7 := (List.getElem?_eq_some_iff.mp hc).1
+    have hcases : a = 0 ∨ a = 1 ∨ a = 2 ∨ a = 3 ∨ a = 4 ∨ a = 5 ∨ a = 6 := by omega
+    rcases hcases with rfl | rfl | rfl | rfl | rfl | rfl | rfl <;>
+      (simp [C15Ex.h0] at hc; subst hc; simp [refsOf] at hx; try (simp [C15Ex.h0]; omega))
+  · intro d items l hd hm
+    have ha : d < 7 := (List.getElem?_eq_some_iff.mp hd).1
+    have hcases : d = 0 ∨ d = 1 ∨ d = 2 ∨ d = 3 ∨ d = 4 ∨ d = 5 ∨ d = 6 := by omega
+    rcases hcases with rfl | rfl | rfl | rfl | rfl | rfl | rfl <;> simp [C15Ex.h0] at hd
+    · subst hd; simp at hm
+    · subst hd
+      simp at hm
+      subst hm
+      exact ⟨[.addr 1], by simp [C15Ex.h0], fun x hx => by simp at hx; subst hx; exact ⟨0, by simp [C15Ex.h0]⟩⟩
+
+example : (copySV C15Ex.h0 6).2 = .ok 12 := by decide +kernel
+
+/-- `as_orbit`: every address stored in a cell it created is new, a maneuver object, or the propagator it was given -/
+theorem asOrbit_separate (h h1 : Heap) (a p n : Nat) (wf : WfM h) (hr : asOrbit h a p = (h1, .ok n)) :
+    Pres h h1 ∧ h.length ≤ n ∧ ClosedP (fun x => Good h x ∨ x = p) h h1 := by
+  have hp := asOrbit_receiver_unchanged h a p
+  rw [hr] at hp
+  unfold asOrbit at hr
+  split at hr
+  · simp at hr
+  · rename_i s hs
+    split at hr
+    · simp at hr
+    · rename_i hc c he
+      obtain ⟨sep, hcn⟩ := copy_separate h hc a c wf he
+      split at hr
+      · simp at hr
+      · rename_i sc hsc
+        simp [alloc] at hr
+        obtain ⟨_, _, hdcell⟩ := getSV_cells hc c sc hsc
+        obtain ⟨_, hdd, _⟩ := copySVWith_getSV (copyRef_ok _) h hc a c sc he hsc
+        have hgood : ∀ x ∈ refsOf (.dict sc.items), Good h x := sep.closed sc.data _ hdd hdcell
+        have q0 : ClosedP (fun x => Good h x ∨ x = p) h hc := fun a' c' ha' hc' x hx => Or.inl (sep.closed a' c' ha' hc' x hx)
+        have hlen : h.length ≤ hc.length := sep.pres.1
+        have q1 := q0.alloc (.buf s.val) (by simp [refsOf])
+        have q2 := q1.alloc (.dict (insert "propagator" (.addr p) sc.items)) (by
+          intro x hx
+          rcases refs_insert hx with h1' | h1'
+          · right; injection h1' with h1'; exact h1'.symm
+          · left; exact hgood x h1')
+        have q3 := q2.alloc (.sv true hc.length (hc.length + 1)) (by
+          intro x hx
+          simp [refsOf] at hx
+          rcases hx with rfl | rfl
+          · left; exact Good.new hlen
+          · left; exact Good.new (by omega))
+        refine ⟨hp, by omega, ?_⟩
+        rw [← hr.1]
+        simpa [alloc] using q3
+
+/-- `as_statevector`: every address stored in a cell it created is new or a maneuver object -/
+theorem asSV_separate (h h1 : Heap) (a n : Nat) (wf : WfM h) (hr : asSV h a = (h1, .ok n)) :
+    Sep h h1 ∧ h.length ≤ n := by
+  unfold asSV at hr
+  split at hr
+  · simp at hr
+  · rename_i s hs
+    split at hr
+    · simp at hr
+    · split at hr
+      · simp at hr
+      · rename_i hc c he
+        obtain ⟨sep, hcn⟩ := copy_separate h hc a c wf he
+        split at hr
+        · simp at hr
+        · rename_i sc hsc
+          simp [alloc] at hr
+          obtain ⟨_, _, hdcell⟩ := getSV_cells hc c sc hsc
+          obtain ⟨_, hdd, _⟩ := copySVWith_getSV (copyRef_ok _) h hc a c sc he hsc
+          have hgood : ∀ x ∈ refsOf (.dict sc.items), Good h x := sep.closed sc.data _ hdd hdcell
+          have hlen : h.length ≤ hc.length := sep.pres.1
+          have q1 := sep.al (.buf s.val) (by simp [refsOf])
+          have q2 := q1.al (.dict (erase "propagator" sc.items)) (fun x hx => hgood x (refs_erase hx))
+          have q3 := q2.al (.sv false hc.length (hc.length + 1)) (by
+            intro x hx
+            simp [refsOf] at hx
+            rcases hx with rfl | rfl
+            · exact Good.new hlen
+            · exact Good.new (by omega))
+          refine ⟨?_, by omega⟩
+          rw [← hr.1]
+          simpa [alloc] using q3
+
+
+/-! ## StateVector → Orbit → StateVector preserves values and metadata -/
+
+theorem lookup_erase_ne (k k' : String) (items : Items) (hne : k' ≠ k) : lookup k' (erase k items) = lookup k' items := by
+  induction items with
+  | nil => simp [erase]
+  | cons kv rest ih =>
+    obtain ⟨k2, v2⟩ := kv
+    by_cases h : k2 = k
+    · subst h; simp [erase, lookup, Ne.symm hne]
+    · by_cases h2 : k2 = k'
+      · subst h2; simp [erase, lookup, h]
+      · simp [erase, lookup, h, h2, ih]
+
+/-- an immutable value (anything but an address) is handed over as it is -/
+theorem copyRef_nonaddr (fuel : Nat) (h : Heap) (k : String) (r : Ref) (hr : ∀ a, r ≠ .addr a) :
+    copyRef (fuel + 1) h k r = (h, .ok r) := by
+  unfold copyRef
+  have hc : isContainer h r = false := by
+    unfold isContainer
+    split
+    · rename_i a; exact absurd rfl (hr a)
+    · rfl
+  simp [hc]
+  try (split
+       · rename_i a; exact absurd rfl (hr a)
+       · rfl)
+
+theorem copyItems_lookup (fuel : Nat) (items items' : Items) (h h' : Heap)
+    (hc : copyItems (copyRef (fuel + 1)) h items = (h', .ok items')) (key : String) :
+    (lookup key items = none → lookup key items' = none) ∧
+    (∀ r, (∀ a, r ≠ .addr a) → lookup key items = some r → lookup key items' = some r) := by
+  induction items generalizing h h' items' with
+  | nil => simp [copyItems] at hc; rw [hc.2]; simp [lookup]
+  | cons kv rest ih =>
+    obtain ⟨k0, v⟩ := kv
+    unfold copyItems at hc
+    split at hc
+    · simp at hc
+    · rename_i h1 v' he
+      split at hc
+      · simp at hc
+      · rename_i h2 rest' he2
+        simp at hc
+        rw [← hc.2]
+        have ihr := ih rest' h1 h2 he2
+        by_cases hk : k0 = key
+        · subst hk
+          simp [lookup]
+          intro r hr hv
+          subst hv
+          rw [copyRef_nonaddr fuel h k0 v hr] at he
+          simp at he; exact he.2.symm
+        · simp [lookup, hk]; exact ihr
+
+theorem getSV_of_cells (h : Heap) (a b d : Nat) (o : Bool) (v : Val) (items : Items) (s : SV)
+    (hc : h[a]? = some (.sv o b d)) (hb : h[b]? = some (.buf v)) (hd : h[d]? = some (.dict items))
+    (hg : getSV h a = some s) :
+    s.val = v ∧ s.items = items ∧ s.orbit = o ∧ formOf items = some s.form ∧ frameOf items = some s.frame := by
+  unfold getSV at hg
+  rw [hc] at hg
+  simp only [hb, hd] at hg
+  split at hg
+  · rename_i f fr hf hfr
+    simp at hg; subst hg; exact ⟨rfl, rfl, rfl, hf, hfr⟩
+  · simp at hg
+
+theorem getSV_form (h : Heap) (a : Nat) (s : SV) (hg : getSV h a = some s) :
+    formOf s.items = some s.form ∧ frameOf s.items = some s.frame := by
+  obtain ⟨hc, hb, hd⟩ := getSV_cells h a s hg
+  exact (getSV_of_cells h a s.buf s.data s.orbit s.val s.items s hc hb hd hg).2.2.2
+
+/-- what `as_orbit` / `as_statevector` build: coordinates of the receiver, `_data` of a copy of the receiver with the
+`propagator` entry set / removed -/
+theorem asOrbit_result (h h1 : Heap) (a p n : Nat) (s sn : SV) (hs : getSV h a = some s)
+    (hr : asOrbit h a p = (h1, .ok n)) (hn : getSV h1 n = some sn) :
+    sn.val = s.val ∧ sn.orbit = true ∧
+    ∃ hc items', copyItems (copyRef copyFuel) h s.items = (hc, .ok items') ∧ sn.items = insert "propagator" (.addr p) items' := by
+  unfold asOrbit at hr
+  rw [hs] at hr
+  simp only at hr
+  split at hr
+  · simp at hr
+  · rename_i hc c he
+    split at hr
+    · simp at hr
+    · rename_i sc hsc
+      obtain ⟨_, _, _, _, s0, items', h0, hs0, hci, _, hi, _⟩ := copySVWith_getSV (copyRef_ok _) h hc a c sc he hsc
+      rw [hs] at hs0; simp at hs0; subst hs0
+      simp [alloc] at hr
+      obtain ⟨hh, hnn⟩ := hr
+      subst hnn
+      have c1 : h1[hc.length + 2]? = some (.sv true hc.length (hc.length + 1)) := by rw [← hh]; simp
+      have c2 : h1[hc.length]? = some (.buf s.val) := by rw [← hh]; simp
+      have c3 : h1[hc.length + 1]? = some (.dict (insert "propagator" (.addr p) sc.items)) := by rw [← hh]; simp
+      obtain ⟨hv, hit, ho, _⟩ := getSV_of_cells h1 _ _ _ _ _ _ sn c1 c2 c3 hn
+      exact ⟨hv, ho, h0, items', hci, by rw [hit, hi]⟩
+
+theorem asSV_result (h h1 : Heap) (a n : Nat) (s sn : SV) (hs : getSV h a = some s)
+    (hr : asSV h a = (h1, .ok n)) (hn : getSV h1 n = some sn) :
+    sn.val = s.val ∧ sn.orbit = false ∧
+    ∃ hc items', copyItems (copyRef copyFuel) h s.items = (hc, .ok items') ∧ sn.items = erase "propagator" items' := by
+  unfold asSV at hr
+  rw [hs] at hr
+  simp only at hr
+  split at hr
+  · simp at hr
+  · split at hr
+    · simp at hr
+    · rename_i hc c he
+      split at hr
+      · simp at hr
+      · rename_i sc hsc
+        obtain ⟨_, _, _, _, s0, items', h0, hs0, hci, _, hi, _⟩ := copySVWith_getSV (copyRef_ok _) h hc a c sc he hsc
+        rw [hs] at hs0; simp at hs0; subst hs0
+        simp [alloc] at hr
+        obtain ⟨hh, hnn⟩ := hr
+        subst hnn
+        have c1 : h1[hc.length + 2]? = some (.sv false hc.length (hc.length + 1)) := by rw [← hh]; simp
+        have c2 : h1[hc.length]? = some (.buf s.val) := by rw [← hh]; simp
+        have c3 : h1[hc.length + 1]? = some (.dict (erase "propagator" sc.items)) := by rw [← hh]; simp
+        obtain ⟨hv, hit, ho, _⟩ := getSV_of_cells h1 _ _ _ _ _ _ sn c1 c2 c3 hn
+        exact ⟨hv, ho, h0, items', hci, by rw [hit, hi]⟩
+
+/- History: before /repo commit 27f7ad7 `as_orbit` / `as_statevector` handed the receiver's `_data` values over as they
+   were, so the statement was "exactly the same `_data` entries" (and `asOrbit_same_references`, the theorem behind the
+   sharing finding). Now both go through `copy()`: mutable values come back as copies (their content is compared by
+   the correspondence run), immutable ones as they are. -/
+/-- clause "converting between StateVector and Orbit preserves values and metadata": the StateVector that comes back
+from StateVector → Orbit → StateVector has the receiver's coordinates, form and frame, is not an Orbit, and every
+immutable `_data` entry (date, strings, numbers, form, frame …) is found under its key unchanged -/
+theorem as_orbit_as_statevector_id (h h1 h2 : Heap) (a p n m : Nat) (s s2 : SV) (hs : getSV h a = some s)
+    (h1r : asOrbit h a p = (h1, .ok n)) (h2r : asSV h1 n = (h2, .ok m)) (hs2 : getSV h2 m = some s2) :
+    s2.val = s.val ∧ s2.orbit = false ∧ s2.form = s.form ∧ s2.frame = s.frame ∧
+    ∀ key r, key ≠ "propagator" → (∀ x, r ≠ .addr x) → lookup key s.items = some r → lookup key s2.items = some r := by
+  -- the intermediate Orbit exists because `asSV` succeeded on it
+  have hsn : ∃ sn, getSV h1 n = some sn := by
+    unfold asSV at h2r
+    split at h2r
+    · simp at h2r
+    · rename_i sn hsn; exact ⟨sn, hsn⟩
+  obtain ⟨sn, hsn⟩ := hsn
+  obtain ⟨hv1, _, hc1, it1, hci1, hit1⟩ := asOrbit_result h h1 a p n s sn hs h1r hsn
+  obtain ⟨hv2, ho2, hc2, it2, hci2, hit2⟩ := asSV_result h1 h2 n m sn s2 hsn h2r hs2
+  have hkey : ∀ key r, key ≠ "propagator" → (∀ x, r ≠ .addr x) → lookup key s.items = some r → lookup key s2.items = some r := by
+    intro key r hk hr hl
+    have l1 := (copyItems_lookup _ s.items it1 h hc1 hci1 key).2 r hr hl
+    have l2 : lookup key sn.items = some r := by rw [hit1, lookup_insert_ne _ _ _ _ hk]; exact l1
+    have l3 := (copyItems_lookup _ sn.items it2 h1 hc2 hci2 key).2 r hr l2
+    rw [hit2, lookup_erase_ne _ _ _ hk]; exact l3
+  have hf := getSV_form h a s hs
+  have hf2 := getSV_form h2 m s2 hs2
+  refine ⟨by rw [hv2, hv1], ho2, ?_, ?_, hkey⟩
+  · have hl : lookup "form" s.items = some (.form s.form) := by
+      have := hf.1; unfold formOf at this
+      split at this
+      · rename_i f hl; simp at this; subst this; exact hl
+      · simp at this
+    have hl2 := hkey "form" _ (by decide) (by intro x; simp) hl
+    have := hf2.1; unfold formOf at this; rw [hl2] at this; simp at this; exact this.symm
+  · have hl : lookup "frame" s.items = some (.frame s.frame) := by
+      have := hf.2; unfold frameOf at this
+      split at this
+      · rename_i f hl; simp at this; subst this; exact hl
+      · simp at this
+    have hl2 := hkey "frame" _ (by decide) (by intro x; simp) hl
+    have := hf2.2; unfold frameOf at this; rw [hl2] at this; simp at this; exact this.symm
 
 end BeyondVerif.C15
